@@ -33,6 +33,10 @@
 //  AllInsSorted(node)                  | before LayoutMap                            | ops "ais" [new] (oracle only)
 //  LayoutJSON / Output / marshalMap    | DisplayName empty                           | ops "jsonbad" [new]; AssignDisplayName, RevLayoutJSON,
 //                                      |                                             | NewRepo: NOT exercised (presentation only)
+//  internal numbers vs graph sizes     | one layer with w nodes preferring one row:  | wide-isolated / wide-star / wide-fan-in [new]: w on
+//                                      | w isolated, root with w children, w sources | both sides of every integer the package names (the
+//                                      | into one sink                               | translator lists them), else 4097 and 5000 (70 000
+//                                      |                                             | in thorough); oracle only (model: <= 100 nodes)
 //  thresholds in the anchored files    | nhit == len(Ins); layer == Nlayer-1;        | all sides by all-4-nodes + random (push needs >= 6
 //                                      | out.layer > layer+1; tak[y-2], tak[y+2];    | nodes: dag-layered, corpus-push-paths)
 //                                      | offset loop in findY; (sum+n/2)/n rounding  |
@@ -546,8 +550,44 @@ func random(seed uint64, count int, big bool) []Case {
 	return cs
 }
 
+// wide: one layer holding w nodes that all prefer the same row - w isolated
+// nodes, one root with w children, w sources feeding one sink (the wide layer
+// of RevLayout).  Layer widths on both sides of every number the package
+// names (the check passes them in; seeded change C19-g: a probe bound of 4096).
+func wide(widths []int) []Case {
+	var cs []Case
+	nm := func(n int) []string {
+		out := make([]string, n)
+		for i := range out {
+			out[i] = fmt.Sprintf("w%06d", i)
+		}
+		return out
+	}
+	for _, w := range widths {
+		if w < 1 {
+			continue
+		}
+		iso := make([][]int, w)
+		cs = append(cs, general("wide-isolated", nm(w), iso))
+		star := make([][]int, w+1)
+		for i := 1; i <= w; i++ {
+			star[0] = append(star[0], i)
+		}
+		cs = append(cs, general("wide-star", nm(w+1), star))
+		fan := make([][]int, w+1)
+		for i := 0; i < w; i++ {
+			fan[i] = []int{w}
+		}
+		cs = append(cs, general("wide-fan-in", nm(w+1), fan))
+	}
+	return cs
+}
+
+var wideWidths []int
+
 func genCases(seed uint64, nrand int, n4 bool, big bool) []Case {
 	cs := corpus()
+	cs = append(cs, wide(wideWidths)...)
 	cs = append(cs, small()...)
 	if n4 {
 		for mask := uint64(0); mask < 1<<16; mask++ {
@@ -1395,11 +1435,17 @@ func main() {
 	tmo := flag.Duration("timeout", 20*time.Second, "per-case limit")
 	maxCrash := flag.Int("maxcrash", 6, "stop after this many cases without a result")
 	casesFile := flag.String("cases", "", "run the cases of this JSON-lines file instead of generating")
+	wideFlag := flag.String("wide", "", "comma-separated layer widths of the wide stream")
 	ex := flag.Int("exhaust", 0, "run every graph on this many nodes against the in-harness oracles")
 	sample := flag.Int("sample", 2000, "exhaust: emit 1 of this many cyclic graphs")
 	workers := flag.Int("workers", 8, "exhaust: goroutines")
 	flag.Parse()
 
+	for _, x := range strings.Split(*wideFlag, ",") {
+		if v, err := strconv.Atoi(strings.TrimSpace(x)); err == nil {
+			wideWidths = append(wideWidths, v)
+		}
+	}
 	if *ex > 0 {
 		if *ex > 5 {
 			fmt.Fprintln(os.Stderr, "exhaust: at most 5 nodes")
@@ -1445,7 +1491,7 @@ func main() {
 	}
 	crashes := 0
 	args := []string{"-seed", strconv.FormatUint(*seed, 10), "-n", strconv.Itoa(*n),
-		"-n4=" + strconv.FormatBool(*n4), "-big=" + strconv.FormatBool(*big), "-timeout", tmo.String(),
+		"-n4=" + strconv.FormatBool(*n4), "-big=" + strconv.FormatBool(*big), "-timeout", tmo.String(), "-wide", *wideFlag,
 		"-cases", *casesFile}
 	err := hx.RunIsolated(len(cs), args, *mem,
 		func(i int, raw []byte) { os.Stdout.Write(append(raw, '\n')) },
